@@ -194,6 +194,9 @@ def run(rep):
     )
     rep.describe("PANIC", "every reachable panic-capable site (MIR inventory) is discharged by a named rule on its typed-tree context")
     rep.describe("PROGRESS", "each cycle of tokenise's loop consumes >= 1 char or returns; parse_expr's loop consumes a token per cycle")
+    import core
+    core.import_rules(rep, "c07", {"LOCKSTEP"})
+    panic.LOCKSTEP_OK = all(i.status == "discharged" for i in rep.instances if i.rule == "LOCKSTEP") and any(i.rule == "LOCKSTEP" for i in rep.instances)
     R = run_panic(rep, F, ["LOAD"], floor=30, extra_rules=(d_tokens_index,))
     # ---------------------------------------------------------------- PROGRESS
     tk = F.fn("<std::string::String as tokeniser::Tokeniser>::tokenise")
